@@ -297,6 +297,12 @@ def gen_trace(rng, lib, nobj, tmp):
             rng.shuffle(pts)
             pos.append([list(p) for p in pts])
         ss = make_snapshots(pos, H, np.eye(2), scale=float(S))
+        # sheared trajectory: the tilt changes from frame to frame, the edge lengths do not
+        Hf = [H] * F
+        if F > 1 and source != "freud" and rng.random() < 0.5:
+            Hf = [H] + [[[Lx, 0], [rng.randint(-Lx // 2, Lx // 2), Ly]] for _ in range(F - 1)]
+            for f in range(1, F):
+                ss.snapshots[f] = make_snapshots([pos[f]], Hf[f], np.eye(2), timesteps=[f], scale=float(S)).snapshots[0]
         brief = {"source": source, "S": S, "N": N, "F": F, "l": l, "H": H, "ppp": ppp, "nmax": nmax, "weighted": weighted}
         try:
             if source == "random":
@@ -334,8 +340,8 @@ def gen_trace(rng, lib, nobj, tmp):
         trace.append({"op": "open", "l": l, "H": H, "ppp": ppp, "nmax": nmax, "nb": nb, "wt": wt if weighted else []})
         for f in range(F):
             rid = len(pending) + 1
-            trace.append({"op": "frame", "id": rid, "pos": pos[f]})
-            pending[rid] = (phi[f], dict(brief, frame=f, pos=pos[f], nb=nb[f], wt=wt[f] if weighted else []))
+            trace.append(dict({"op": "frame", "id": rid, "pos": pos[f]}, **({"H": Hf[f]} if Hf[f] is not H else {})))
+            pending[rid] = (phi[f], dict(brief, frame=f, H=Hf[f], pos=pos[f], nb=nb[f], wt=wt[f] if weighted else []))
     return trace, pending, raised
 
 
